@@ -233,7 +233,7 @@ PROPS = {
             'sequential scope: per-call contracts over an owned model (Arc as Box, Mutex as plain ownership); a peer that connects CONCURRENTLY with a subscribe call is outside what these contracts decide',
             'scc traversal (begin_async / next_async / OccupiedEntry) is the assumed cursor model of prelude/socket_standins.rs: every registered peer is visited exactly once, changes through the entry are changes of the table',
             'FramedWrite::send: Ok means everything buffered plus the item is on the wire; Err means nothing new is on the wire; `tried` counts the calls (ASSUMED stand-in for asynchronous-codec / futures SinkExt)',
-            'the topic set is a ghost Set<Seq<u8>> view of the HashSet<String>; `subs.lock().insert(t.to_string())` / `subs.lock().remove(t)` are assumed expressions with std HashSet semantics (returns whether the set changed)',
+            'the topic set is the image of the HashSet<String> under UTF-8; `insert` / `remove` are verified against vstd\'s HashSet specifications. ASSUMED axioms (vstd has key-model axioms for integer and Box keys only): String is a well-behaved hash key, Strings with equal characters are equal, &str borrows a String by content, the octets of a str are the UTF-8 encoding of its characters and that encoding is injective',
             '`subs.lock().iter().map(closure).collect()` in peer_connected is an assumed expression: one SUBSCRIBE message per topic of the set, each once, in an order of std\'s choosing',
             '`.unwrap()` on the snapshot send is modelled as "returns only if Ok": that the connect / accept task PANICS when the new peer\'s connection fails right after READY is not part of C13 and not claimed panic-free',
             'create_subs_message is used through its contract here and verified in unit pubsub (RFC 29 frame: one octet 0x01 / 0x00 + topic)',
